@@ -1,5 +1,6 @@
 import Mochi.Model.Broker
 import Mochi.Props.C03
+import Mochi.Lemmas.BrokerShared
 /-!
 # C06 — Each shared-subscription group receives each matching message exactly once
 
@@ -67,4 +68,73 @@ theorem C06_two_filters_counterexample :
                                  ([36,115,104,97,114,101,47,103,47,97,47,35], [([99, 50], { filter := [36,115,104,97,114,101,47,103,47,97,47,35] })])] }).length = 2 := by
   decide
 
+/-! ## The delivery theorem with shared subscriptions (state level)
+
+`selectShared_exact`, `subsMapOf`, `EntitledShared`, `PickedWith`, `EntitledPicked`, `NoLocalMixedShared`:
+`Mochi/Lemmas/BrokerShared.lean`. -/
+
+/-- **Item 2 — `publishToSubscribers_writes_exact` without the hypothesis `shared = []`.**  State `s` with
+    well-formed tables (`WF`) and one connection per client object (`ConnDistinct`); `pk` an application message
+    (PUBLISH, not marked "ignore") of QoS 0.  For every resolution `s.pickSeed`, `s.orderSeed` of Go's map order:
+
+    1. a PUBLISH is written to connection `n` **iff** `EntitledShared s pk n`: `n` is the connection of a client
+       object registered under its id `cid`, open, not inline, peer not gone, `cid` may read the topic; `cid` has an
+       entry in the map of matching plain subscriptions OR is the member picked (`pickAt s.pickSeed`, entries
+       visited in the order `permuteBy s.orderSeed`) for some matching candidate entry; and it is not the case that
+       `cid` is the publisher and No Local is set on its merged plain entry or on a subscription it was picked with
+       (**F03**: `Merge` ORs No Local over everything merged under one client id);
+    2. whoever is written is entitled through its plain entry (`EntitledVia … subs`) or as a picked member
+       (`EntitledPicked`); outside the F03 situation (`NoLocalMixedShared`) that disjunction is exact;
+    3. connection `n` is written **at most one** PUBLISH, also when it is entitled both ways or picked for several
+       entries (`C03_merge_one_entry`);
+    4. every output is an inline delivery or a copy of the message.
+
+    **F06** is explicit in "candidate entry": the candidate map is keyed by the full filter string, so one share
+    name with two matching filters is two entries, each with its own pick (`C06_two_filters_counterexample`). -/
+theorem publishToSubscribers_writes_exact_shared (s : Server) (hw : WF s) (hcd : ConnDistinct s) (pk : Msg)
+    (hig : pk.ignore = false) (ht : pk.type = 3) (hq : pk.qos = 0) (n : Nat) :
+    ((∃ ver m me, Out.wrote n (.publish ver m me) ∈ (publishToSubscribers s pk).2) ↔ EntitledShared s pk n) ∧
+    (EntitledShared s pk n → EntitledVia s pk (subscribers s.topics pk.topic).subs n ∨ EntitledPicked s pk n) ∧
+    (¬ NoLocalMixedShared s pk →
+      (EntitledShared s pk n ↔ EntitledVia s pk (subscribers s.topics pk.topic).subs n ∨ EntitledPicked s pk n)) ∧
+    ((publishToSubscribers s pk).2.filterMap pubConn).count n ≤ 1 ∧
+    ∀ x ∈ (publishToSubscribers s pk).2, (∃ id, x = Out.inline id pk.topic pk.payload) ∨ IsCopy pk x := by
+  obtain ⟨h1, h2⟩ := publishToSubscribers_pubConns_shared s pk (fun id i h => (hw.clients_valid id i h).1) hig ht
+    (Or.inl hq)
+  refine ⟨?_, EntitledShared.or, fun hmix => entitledShared_iff_or hmix n, ?_, h2⟩
+  · rw [← mem_pubConns, h1, mem_recipients s hw pk _ n]
+    exact entitledVia_subsMapOf_iff s pk n
+  · rw [h1]
+    exact List.nodup_iff_count.mp (recipients_nodup s hw hcd pk _ (subsMapOf_nodup s pk.topic)) n
+
+/-- with no matching shared subscription this is `publishToSubscribers_writes_exact` again -/
+theorem entitledShared_of_no_shared (s : Server) (pk : Msg) (hsh : (subscribers s.topics pk.topic).shared = [])
+    (n : Nat) : EntitledShared s pk n ↔ EntitledVia s pk (subscribers s.topics pk.topic).subs n := by
+  have hnp : ∀ cid sub, ¬ PickedWith s pk.topic cid sub := by
+    rintro cid sub ⟨k, hk⟩
+    unfold visitOrder at hk
+    rw [hsh] at hk
+    simp [permuteBy_nil, pickAt] at hk
+  have hmix : ¬ NoLocalMixedShared s pk := by
+    rintro ⟨sub, sub', h1, hn, h2, hn'⟩
+    rcases h1 with h1 | h1
+    · rcases h2 with h2 | h2
+      · have hnd := C03_one_entry_per_client s.topics pk.topic
+        have a := assocGet_of_mem_nodup _ _ _ hnd h1
+        rw [assocGet_of_mem_nodup _ _ _ hnd h2] at a
+        cases a
+        rw [hn] at hn'
+        cases hn'
+      · exact hnp _ _ h2
+    · exact hnp _ _ h1
+  rw [entitledShared_iff_or hmix]
+  constructor
+  · rintro (h | ⟨cid, i, sub, _, _, _, _, _, hs, _⟩)
+    · exact h
+    · exact absurd ((mem_sharedPicks _ _ _ _).mp hs) (hnp _ _)
+  · exact Or.inl
+
 end Mochi.Broker
+
+#print axioms Mochi.Broker.selectShared_exact
+#print axioms Mochi.Broker.publishToSubscribers_writes_exact_shared
